@@ -35,6 +35,8 @@ class Dense:
 
 def draw(rng, n, sizes, wide=False, homo=False):
     means = [rng.uniform(-10, 10, size=(n, e)) * (rng.choice([1e-2, 1.0]) if not wide else 1.0) for e in sizes]
+    for mm in means:
+        mm[rng.random(size=mm.shape) < 0.15] = 0.0          # a predicted mean of exactly 0 is an ordinary value
     if wide:
         levels = [1e-3, 1e3]
         vars_ = [np.full((n, e), levels[i % 2]) * np.exp(rng.normal(size=(n, 1)) * 0.1) for i, e in enumerate(sizes)]
